@@ -19,6 +19,8 @@ LEVEL = 'exploration'
 BUDGET = {'quick': 45, 'thorough': 420}
 # deterministic sub-checks repeated in a `python -O` child (core.optimized_child)
 OPT_SUBS = ('override', 'localzone', 'foldpairs')
+# documented call interface the generated calls rely on (vcheck/callstyle.py)
+INTERFACE = [('oslo_utils.timeutils', ['is_older_than', 'is_newer_than', 'is_soon', 'normalize_time', 'marshall_now', 'unmarshall_time', 'advance_time_delta', 'advance_time_seconds', 'set_time_override', 'utcnow_ts', 'utcnow', 'parse_isotime', 'delta_seconds'])]
 RULE = ('instants = integer microseconds over the whole datetime range (2-day '
         'margin at both ends), biased to range ends, the epoch, leap days and '
         'microsecond != 0; tz in {naive, five spellings of UTC, fixed offsets '
@@ -318,9 +320,14 @@ def oracle_marshal(col, case, sub='marshal'):
                      sec == 60 or d['microsecond'] != 0,
                      'dict/second=60' if sec == 60 else 'dict/plain', case)
             try:
-                res = timeutils.unmarshall_time(dict(d))
+                arg = dict(d)
+                timeutils.unmarshall_time(arg)
+                res = timeutils.unmarshall_time(arg)     # same dict again
             except Exception as e:
                 _bad(sub, 'unmarshall_time(%r) raised %r' % (d, e), case)
+            if arg != d:
+                _bad(sub, 'unmarshall_time changed its argument: %r -> %r'
+                     % (d, arg), case)
             want = (d['year'], d['month'], d['day'], d['hour'], d['minute'],
                     min(sec, 59), d['microsecond'])
             got = tuple(getattr(res, f) for f in _FIELDS)
@@ -355,11 +362,20 @@ def oracle_marshal(col, case, sub='marshal'):
         except (TypeError, ValueError) as e:
             _bad(sub, 'marshall_now(%r) = %r is not rpc-safe: %r' % (t, m, e),
                  case)
-        for label, payload in (('direct', m), ('json', wire)):
+        for label, payload in (('direct', m), ('json', wire),
+                               ('direct, second time', m),
+                               ('json, second time', wire)):
+            # the same payload is unmarshalled twice (a message delivered to
+            # two consumers): the argument belongs to the caller
+            before = dict(payload)
             try:
                 res = timeutils.unmarshall_time(payload)
             except Exception as e:
-                _bad(sub, 'unmarshall_time(%r) raised %r' % (payload, e), case)
+                _bad(sub, 'unmarshall_time(%r) raised %r (%s)'
+                     % (payload, e, label), case)
+            if payload != before:
+                _bad(sub, 'unmarshall_time changed its argument: %r -> %r'
+                     % (before, payload), case)
             if not isinstance(res, datetime.datetime) or to_us(res) != wall:
                 _bad(sub, 'unmarshall_time(marshall_now(%s)) = %r (%s)'
                      % (t.isoformat(), res, label), case)
